@@ -30,8 +30,12 @@ impl Submissions {
         let len = shared.submissions_len;
         // Before grabbing a lock, see if there is space in the queue.
         if shared.unsubmitted_submissions() >= len {
+            #[cfg(a10_verif)]
+            crate::verif::emit("SqFull", [shared.id(), 0, 0, 0, 0, 0]);
             return Err(QueueFull);
         }
+        #[cfg(a10_verif)]
+        crate::verif::yield_point("sq.add.checked");
 
         // Grab the submission lock.
         let submissions_guard = lock(&shared.submissions_lock);
@@ -44,6 +48,8 @@ impl Submissions {
         let head = load_kernel_shared(shared.submissions_head);
         let tail = load_kernel_shared(shared.submissions_tail);
         if (tail - head) > len {
+            #[cfg(a10_verif)]
+            crate::verif::emit("SqFull", [shared.id(), 1, u64::from(head), u64::from(tail), 0, 0]);
             unlock(submissions_guard);
             return Err(QueueFull);
         }
@@ -58,6 +64,8 @@ impl Submissions {
 
         // Reset and fill the submission.
         submission.reset();
+        #[cfg(a10_verif)]
+        crate::verif::yield_point("sq.add.reset");
         fill_submission(submission);
         #[cfg(debug_assertions)]
         debug_assert!(!submission.is_unchanged());
@@ -69,6 +77,16 @@ impl Submissions {
         // here because we're holding the submission lock and thus are the only
         // ones writing to it (but other threads and the kernel can read it).
         let new_tail = tail.wrapping_add(1);
+        #[cfg(a10_verif)]
+        {
+            crate::verif::yield_point("sq.add.filled");
+            // SAFETY: `Submission` is a plain 64 byte C struct.
+            let raw = unsafe {
+                std::slice::from_raw_parts(ptr::from_ref(&*submission).cast::<u8>(), 64)
+            };
+            let fields = [shared.id(), u64::from(head), u64::from(tail), index as u64, 0, 0];
+            crate::verif::emit_raw("SqAdd", fields, raw);
+        }
         unsafe { (*shared.submissions_tail.as_ptr()).store(new_tail, Ordering::Release) }
 
         log::trace!(submission:?, index, tail, new_tail; "queueing submission");
@@ -93,6 +111,8 @@ impl Submissions {
 
     pub(crate) fn wake(&self) -> io::Result<()> {
         log::trace!("waking up ring");
+        #[cfg(a10_verif)]
+        crate::verif::yield_point("wake.begin");
         if !self.shared.polling.wake() {
             // If we're not polling we don't need to wake up.
             log::trace!("skipping ring message as it's not polling");
@@ -147,6 +167,16 @@ impl Submissions {
     pub(crate) fn wait_for_submission(&self, waker: task::Waker) {
         log::trace!(waker:?; "adding future waiting on submission slot");
         let shared = &*self.shared;
+        #[cfg(a10_verif)]
+        {
+            crate::verif::yield_point("sq.wait.pre_lock");
+            let mut blocked_futures = lock(&shared.blocked_futures);
+            let fields = [shared.id(), blocked_futures.len() as u64, 0, 0, 0, 0];
+            crate::verif::emit("Blocked", fields);
+            blocked_futures.push(waker);
+            return;
+        }
+        #[cfg(not(a10_verif))]
         lock(&shared.blocked_futures).push(waker);
     }
 
